@@ -116,7 +116,7 @@ func deadHashes(w *racWorld) []Hash {
 	var d []Hash
 	for i := 0; i < int(w.spec.n); i++ {
 		if _, ok := w.spec.alive[uint64(i)]; !ok {
-			d = append(d, specLeaf(i))
+			d = append(d, racLeaf(i))
 		}
 	}
 	return d
